@@ -10,7 +10,10 @@
 (*               "otherSecret"  (otherId = the id of another, active mapping M2 whose listen    *)
 (*               client is the stranger; otherSecret = id + secret of a third active mapping M3 *)
 (*               whose target client is the stranger; resume / wrongSecret carry M's id too)    *)
-(*          ms   "active" | "revoked" | "expired" | "inactive" | "missing"  (mapping M now)     *)
+(*          ms   "active" | "revoked" | "expired" | "inactive" | "missing" | any other status  *)
+(*               ("error", "suspended", ...): state of mapping M now; only "active" is valid    *)
+(*          shape (optional) "std" | "noListen" | "noTarget": M has no listen / target client    *)
+(*               (client id 0) - then nobody is "the mapping's listening / target client"        *)
 (*          ts   "none" | "waiting" | "served" | "remote"    (tunnel state at arrival), or      *)
 (*               "lateLocal" | "lateRemote": nothing at arrival, the tunnel was registered on   *)
 (*               this / another node while the request was being served                         *)
@@ -36,17 +39,20 @@ EXTENDS VLib
 VARIABLES reqs     \* who -> [o, d, ack, closed] of the requests seen in the current trace
 jvars == <<l, viol, reqs>>
 
-Req(o) == [id |-> o.id, cred |-> o.cred, ms |-> o.ms, tm |-> o.tm, kl |-> "keyless" \in DOMAIN o /\ o.keyless]
+Req(o) == [id |-> o.id, cred |-> o.cred, ms |-> o.ms, tm |-> o.tm, kl |-> "keyless" \in DOMAIN o /\ o.keyless,
+           sh |-> IF "shape" \in DOMAIN o THEN o.shape ELSE "std"]
 Empty == [w \in {} |-> [o |-> Req([id |-> "", cred |-> "", ms |-> "", tm |-> ""]), d |-> "", ack |-> "", closed |-> FALSE]]
 Init == l = 1 /\ viol = {} /\ reqs = Empty
 
 Authd(i) == i \in {"listen", "target", "stranger"}
 Keyless(o) == "keyless" \in DOMAIN o /\ o.keyless
 
+ListenOf(o) == o.id = "listen" /\ o.sh # "noListen"
+TargetOf(o) == o.id = "target" /\ o.sh # "noTarget"
 EntM(o) == /\ Authd(o.id) /\ o.ms = "active"
-           /\ \/ o.id = "listen" /\ o.cred \in {"idOnly", "rightSecret", "wrongSecret", "resume"}
-              \/ o.id \in {"listen", "target"} /\ o.cred = "rightSecret"
-              \/ o.id = "target" /\ o.cred = "idOnly" /\ o.kl         \* the mapping's secret is the empty one
+           /\ \/ ListenOf(o) /\ o.cred \in {"idOnly", "rightSecret", "wrongSecret", "resume"}
+              \/ (ListenOf(o) \/ TargetOf(o)) /\ o.cred = "rightSecret"
+              \/ TargetOf(o) /\ o.cred = "idOnly" /\ o.kl             \* the mapping's secret is the empty one
 \* r = Req(o); tm = mapping of the tunnel in question ("-": none, the request may create one)
 Entitled(r, tm) == IF r.cred = "otherId" THEN r.id = "stranger" /\ tm \in {"-", "M2"}
                    ELSE IF r.cred = "otherSecret" THEN r.id = "stranger" /\ tm \in {"-", "M3"}
@@ -57,6 +63,7 @@ Path(ts) == CASE ts = "none" -> "newBridge" [] ts = "waiting" -> "existingBridge
               [] ts = "lateRemote" -> "crossNodeLate" [] ts = "lateLocal" -> "localLate" [] OTHER -> ts
 Detail(o) == Path(o.ts) \o ":" \o o.id \o ":" \o o.cred \o ":" \o o.ms
              \o (IF Keyless(o) THEN ":keyless" ELSE "")
+             \o (IF "shape" \in DOMAIN o /\ o.shape # "std" THEN ":" \o o.shape ELSE "")
              \o (IF o.tm \in {"M2", "M3"} /\ o.cred \notin {"otherId", "otherSecret"} THEN ":squatted" ELSE "")
 
 TrOpen == /\ Is("Open")
